@@ -100,8 +100,11 @@ def generate(seed, tier="quick"):
     for _ in range(srng.randint(1, 7)):
         r = srng.random()
         if r < 0.5:
-            fl = srng.choice(["create", "fix", "create,fix", "trim", "create,fix,trim", "create,fix,trim,update", None, "report", "review", "review", "short-report", "update"])
+            fl = srng.choice(["create", "fix", "create,fix", "trim", "create,fix,trim", "create,fix,trim,update", None, "report", "review", "review", "short-report", "update", "disable", "ci"])
             st = {"k": "session", "flags": fl}
+            if fl == "ci":
+                # an inactive session: a CI variable is set (flags, if any, are ignored); like with disable, outsource() still writes and the start still prunes
+                st = {"k": "session", "flags": srng.choice([None, "create,fix", "trim"]), "env": {srng.choice(["CI", "GITHUB_ACTIONS", "JENKINS_URL"]): "true"}}
             if fl == "review":
                 st["answers"] = {c: srng.random() < 0.5 for c in CATS}
             if srng.random() < 0.25:
@@ -285,7 +288,9 @@ def execute(case, ctx):
             argv = ["-k", selected]
         if step.get("from_parent") or step.get("from_sibling"):
             ctx.count("probe_session_started_outside_the_project_directory")
-        new, res = sim.run_session(ctx, "plugin", files, {"flags": step.get("flags"), "answers": step.get("answers"), "argv": argv, "from_parent": bool(step.get("from_parent")),
+        if step.get("env") or step.get("flags") == "disable":
+            ctx.count("probe_inactive_session_in_the_history")
+        new, res = sim.run_session(ctx, "plugin", files, {"flags": step.get("flags"), "answers": step.get("answers"), "argv": argv, "env": step.get("env"), "from_parent": bool(step.get("from_parent")),
                                                         "from_sibling": bool(step.get("from_sibling"))}, timeout=90)
         if not sim.session_completed("plugin", res):
             out["discards"]["session-did-not-complete(C18)"] = 1
@@ -326,7 +331,7 @@ def execute(case, ctx):
                                     ever[(h, sfx)] = data
         ctx.count("clauses_checked")
         flags = set((step.get("flags") or "report").split(","))
-        trim_ok = "trim" in flags or ("review" in flags and (step.get("answers") or {}).get("trim"))
+        trim_ok = ("trim" in flags or ("review" in flags and (step.get("answers") or {}).get("trim"))) and not step.get("env")  # (a CI session approves nothing)
         all_refs = [(fn, r) for fn, t in texts.items() for r in references(t)]
         # ---- S1: name = sha256(content) [-new] suffix, content = what was outsourced
         for n, content in post_list.items():
